@@ -66,6 +66,10 @@ pub fn pool() -> Vec<Lab> {
         Lab::Alpha(3),
         Lab::Alpha(17),
         Lab::Alpha(4_000_000_000),
+        Lab::Alpha(1 << 40),
+        Lab::Alpha(u64::MAX),
+        Lab::Alpha(255),
+        Lab::Alpha(256),
         Lab::Greek('x'),
         Lab::Greek('a'),
         Lab::Greek('Z'),
@@ -84,6 +88,11 @@ pub fn pool() -> Vec<Lab> {
         Lab::Str("ρρ".into()),
         Lab::Str("a1".into()),
         Lab::Str("x-y_z".into()),
+        Lab::Str("ABCDEFGH".into()),
+        Lab::Str("абвгдежз".into()),
+        Lab::Str("𝜑𝜑".into()),
+        Lab::Greek('0'),
+        Lab::Greek('+'),
     ];
     // enough distinct labels to fill a vertex with N = 16 and go one beyond
     for i in 0..10 {
